@@ -507,7 +507,7 @@ pub fn c06(run: &mut Run) {
             let ops: Vec<BitOp> = f.iter().map(|i| alphabet[*i as usize]).collect();
             c06_eval_ops(run, &ops);
         }
-        run.part("state_exploration", json!({"alphabet": ["bit0", "bit1", "clear"], "states_found": out.states, "state_cap": cap, "closed": out.closed, "max_depth": out.max_depth, "histories_replayed": out.histories_run, "failing(sampled)": out.failures.len()}));
+        run.part("state_exploration", json!({"alphabet": ["bit0", "bit1", "clear"], "states_found": out.states, "state_cap": cap, "closed": out.closed, "detail": crate::explore::outcome_json(&out), "max_depth": out.max_depth, "histories_replayed": out.histories_run, "failing(sampled)": out.failures.len()}));
     }
 
     // (c3) repeat-then-perturb: a keyboard with a key held down sends the same frame again
